@@ -180,6 +180,22 @@ func verifyFunction(L *Loaded, fn *ssa.Function, fs *FuncSpec) (res *FuncResult)
 		} else {
 			vc.oblige("safety", fmt.Sprintf("%s#safe[%s]", fname, what), e.Cond, tFalse, e.Pos)
 		}
+		if fs.Flags["xpure"] {
+			if e.St.epoch != 0 {
+				unsup("xpure cannot be checked after a callback havoc")
+			}
+			for _, h := range sortedKeys(boolKeys(e.St.heaps)) {
+				pre := vc.preHeap(h, 0)
+				fin := e.St.heaps[h]
+				if fin.S == pre.S {
+					continue
+				}
+				q := vc.freshConst("q_xframe", SPtr)
+				_, vs := arrayParts(pre.Sort)
+				visible := Term{fmt.Sprintf("(<= (alloc %s) nalloc!0)", q.S), SBool}
+				vc.oblige("xframe", fmt.Sprintf("%s#xpure[%s]@[%s]", fname, h, what), and(e.Cond, visible), eq(sel(fin, q, vs), sel(pre, q, vs)), e.Pos)
+			}
+		}
 		for k, cl := range fs.Clauses {
 			if cl.Kind == "xensures" {
 				if cf := vc.clauseFn(cl); cf != nil {
